@@ -304,6 +304,57 @@ def run(st, tier, seed):
             res.violations.append({"what": "structure of length %d accepted for a strand of length %d" % (n, n + delta),
                                    "input": {"n": n, "strand": n + delta}, "sig": "C08:wrong-size", "cmd": "Component.add_structure"})
 
+    # wrongly sized, multi-strand: a description with one strand break too many / too few / moved (in any spelling), compiled
+    # against strands of the ORIGINAL lengths, must be rejected — or, if it is accepted, what comes out must be balanced with
+    # exactly one segment per strand of that strand's length
+    for i in range(60 if tier == "quick" else 1200):
+        t = gen_tree(rng, [rng.randint(2, 40)], rng.randint(0, 4), True, [rng.randint(1, 3)])
+        s0 = flat(t)
+        lens0 = [len(x) for x in s0.split("+")]
+        if not s0 or 0 in lens0:
+            continue
+        kind = rng.choice(["plain", "rl", "hu"])
+        text = {"plain": spell_plain, "rl": spell_runlength}[kind](rng, s0).strip() if kind != "hu" else spell_hu(rng, t).strip()
+        how = rng.choice(["double-break", "leading-break", "trailing-break", "extra-break", "drop-break", "move-break"])
+        plus = [k for k, c in enumerate(text) if c == "+"]
+        if how == "double-break" and plus:
+            k = rng.choice(plus); bad = text[:k] + "+ +" + text[k + 1:]
+        elif how == "leading-break":
+            bad = "+ " + text
+        elif how == "trailing-break":
+            bad = text + " +"
+        elif how == "extra-break":
+            k = rng.randint(0, len(text)); bad = text[:k] + " + " + text[k:]
+        elif how == "drop-break" and plus:
+            k = rng.choice(plus); bad = text[:k] + " " + text[k + 1:]
+        elif how == "move-break" and plus and kind == "plain":
+            k = rng.choice(plus); t2 = text[:k] + text[k + 1:]; k2 = max(0, min(len(t2), k + rng.choice([-2, -1, 1, 2]))); bad = t2[:k2] + "+" + t2[k2:]
+        else:
+            continue
+
+        def build3():
+            comp = Component("c", "", [])
+            names = []
+            for si, n in enumerate(lens0):
+                comp.add_sequence("a%d" % si, [[n, "N"]], None)
+                comp.add_strand(False, "A%d" % si, [["sequence", ["a%d" % si, False]]], None)
+                names.append("A%d" % si)
+            comp.add_structure(1.0, "X", names, parse_structure_statement(stmt(bad))[3])
+            return comp.structs["X"].struct
+        r = call(build3)
+        res.evaluations += 1
+        res.count("malformed:strand-breaks:" + how)
+        if "ok" in r:
+            s2 = r["ok"]
+            depth, ok = 0, True
+            for c in s2:
+                depth += (c == "(") - (c == ")")
+                ok = ok and depth >= 0
+            if not (ok and depth == 0 and [len(x) for x in s2.split("+")] == lens0):
+                res.violations.append({"what": "a description whose strand breaks do not fit the strands (%s) was accepted as %r for strands of lengths %r" % (how, s2, lens0),
+                                       "input": {"statement": stmt(bad), "strand_lengths": lens0}, "observed": r, "sig": "C08:strand-breaks",
+                                       "cmd": "Component.add_structure(…, parse_structure_statement(statement)) on strands of these lengths"})
+
     # exhaustive strings over .()+
     L = 7 if tier == "quick" else 9
     nb = 0
